@@ -42,7 +42,8 @@ def _frame(cols, labels, index, consolidate, name=None):
 @st.composite
 def label_cases(draw):
     # decisive choices first (late draws are pinned to their first option for a share of Hypothesis's examples)
-    what = draw(st.sampled_from(['set_unset', 'set_hier', 'shift_in_out', 'shift_out_in', 'set_keep']))
+    what = draw(st.sampled_from(['set_unset', 'set_hier', 'shift_in_out', 'shift_out_in', 'set_keep', 'shift_out_list']))
+    perm = draw(st.permutations([0, 1, 2]))[: draw(st.sampled_from([2, 3, 1]))]
     consolidate, axis = draw(st.booleans()), draw(st.integers(0, 1))
     m = draw(st.sampled_from([3, 2, 4]))
     k0, k1 = draw(st.integers(0, m - 1)), draw(st.integers(0, m - 1))
@@ -56,7 +57,7 @@ def label_cases(draw):
             cols.append(np.array(draw(st.lists(st.sampled_from(['a', 'b', 'c']), min_size=n, max_size=n)), dtype='<U1'))
         else:
             cols.append(np.array(draw(st.lists(st.sampled_from([0.5, 1.5, 2.5]), min_size=n, max_size=n))))
-    return {'cols': cols, 'n': n, 'what': what, 'k0': k0, 'k1': k1, 'consolidate': consolidate, 'axis': axis}
+    return {'cols': cols, 'n': n, 'what': what, 'k0': k0, 'k1': k1, 'consolidate': consolidate, 'axis': axis, 'perm': list(perm)}
 
 
 def check_labels(case):
@@ -153,6 +154,52 @@ def check_labels(case):
         if not all(eq(a, rows[i][k0]) for i, a in enumerate(arr_list(bcols[0]))):
             raise Failure('value', 'relabel_shift_out: restored column %s' % short(bcols[0]))
         return {'nt': n >= 2, 'cls': ['labels:shift_in_out']}
+    if what == 'shift_out_list':
+        # a depth-3 hierarchy (unique first depth) whose depths are moved into the frame in an arbitrary order
+        perm = case.get('perm') or [1, 0]
+        names = ('d0', 'd1', 'd2')
+        depth_vals = [list(range(n)), [rows[i][k0] for i in range(n)], [rows[i][k1] for i in range(n)]]
+        ih = lib(lambda: sf.IndexHierarchy.from_labels(list(zip(*depth_vals)), name=names))
+        if isinstance(ih, Raised):
+            raise Discard('labels do not form a hierarchy')
+        g = f.relabel(index=ih)
+        for axis in (0, 1):
+            src = g if axis == 0 else g.transpose()
+            r = lib(lambda: src.relabel_shift_out(perm, axis=axis))
+            if isinstance(r, Raised):
+                remain_ = [d for d in range(3) if d not in perm]
+                rem_labels = [tuple(canon(depth_vals[d][i]) for d in remain_) for i in range(n)]
+                if remain_ and (len(set(map(repr, rem_labels))) != n or (len(remain_) > 1 and not gen.is_tree_order(rem_labels))) \
+                        and isinstance(r.exc, sf.ErrorInitIndex):
+                    raise Discard('the depths that remain do not form a valid index (rightly rejected)')
+                raise Failure('raised:%s' % r.cls, 'relabel_shift_out(%r, axis=%d) raised %r' % (perm, axis, r.exc), r.where)
+            r = r if axis == 0 else r.transpose()
+            if r.shape != (n, m + len(perm)):
+                raise Failure('shape', 'relabel_shift_out(%r, axis=%d): shape %s expected %s' % (perm, axis, r.shape, (n, m + len(perm))))
+            rl = obs.labels_of(r.columns)
+            want_new = [names[d] for d in perm]
+            if [canon(x) for x in rl[:len(perm)]] != want_new or [canon(x) for x in rl[len(perm):]] != labels:
+                raise Failure('labels', 'relabel_shift_out(%r, axis=%d): labels %s expected %s' % (perm, axis, short(rl), want_new + labels))
+            rc = obs.frame_cols(r)
+            for q, d in enumerate(perm):
+                got = arr_list(rc[q])
+                if not all(eq(a, canon(b)) for a, b in zip(got, depth_vals[d])):
+                    raise Failure('value', 'relabel_shift_out(%r, axis=%d): the new %s named %r holds %s but depth %d of the source is %s' % (
+                        perm, axis, 'column' if axis == 0 else 'row', names[d], short(got), d, short(depth_vals[d])))
+            rest = [tuple(arr_list(c)[i] for c in rc[len(perm):]) for i in range(n)]
+            if not all(all(eq(a, b) for a, b in zip(x, y)) for x, y in zip(rest, rows)):
+                raise Failure('value', 'relabel_shift_out(%r, axis=%d) changed cells' % (perm, axis))
+            remain = [d for d in range(3) if d not in perm]
+            gi = obs.labels_of(r.index)
+            if len(remain) == 0:
+                want_i = list(range(n))
+            elif len(remain) == 1:
+                want_i = [canon(x) for x in depth_vals[remain[0]]]
+            else:
+                want_i = [tuple(canon(depth_vals[d][i]) for d in remain) for i in range(n)]
+            if len(gi) != n or not all(eq(a, b) for a, b in zip(gi, want_i)):
+                raise Failure('labels', 'relabel_shift_out(%r, axis=%d): remaining index %s expected %s' % (perm, axis, short(gi), short(want_i)))
+        return {'nt': n >= 2 and len(perm) >= 2, 'cls': ['labels:shift_out_list', 'perm-%s' % ('ascending' if perm == sorted(perm) else 'permuted')]}
     if what == 'shift_out_in':
         r = lib(lambda: f.relabel_shift_out(0, axis=0))
         if isinstance(r, Raised):
